@@ -46,12 +46,14 @@ class ModuleList(Module):
 
     def _register_child(self, key: str, module: Module) -> None:
         """Register a child module under the given string key."""
-        if module._name is None:  # pylint: disable=protected-access
-            # Qualify with parent name if already set (e.g. after append)
-            if self._name is not None:
-                module._set_name(f"{self._name}.{key}")  # pylint: disable=protected-access
-            else:
-                object.__setattr__(module, "_name", key)
+        if self._name is not None:
+            # Qualify with parent name if already set (e.g. after append), exactly
+            # as ``_set_name`` does for the children registered before.
+            module._set_name(f"{self._name}.{key}")  # pylint: disable=protected-access
+        elif module._name is None:  # pylint: disable=protected-access
+            # ``_set_name`` (not a bare attribute write) so that a nested
+            # container propagates the key to its own children.
+            module._set_name(key)  # pylint: disable=protected-access
         self._modules[key] = module
         object.__setattr__(self, key, module)
 
